@@ -11,9 +11,9 @@ Arrays have arbitrary length and the corrupt value sits at an arbitrary position
 the entry-point theorems quantify over the whole table (`∀ e : Entry`), every model state that can serve the
 entry point (`Ready e m`) and all remaining arguments.
 
-Three regions where the code as it is now does **not** reject are excluded by an explicit hypothesis
-(`…_partial`) and proved to be genuine counter-examples of the full statement (`…_accepted`): they are reported
-as suspected defects by the check.
+One region where the code as it is now deliberately does **not** reject (`partial_dependence` and the categorical
+features of *other* terms) is excluded by an explicit hypothesis (`…_partial`) and shown to be a genuine
+counter-example of the unrestricted statement (`…_accepted`).
 -/
 namespace PyGam.C11
 open PyGam.Validate
@@ -120,10 +120,15 @@ theorem entry_rejects_nonfinite_X (e : Entry) (m : Model) (a : Args) (hr : Ready
     cases hfit : m.fit with
     | none => simp [Step.passes, hfit]
     | some f => simp [Step.passes, hfit, checkXFittedTerm_false_of_mem hrow hv hnf]
-  rcases mem_xStep e m.isFitted a.converged with h | h | h
+  have h4 : Step.passes m a .xFittedWidth = false := by
+    cases hfit : m.fit with
+    | none => simp [Step.passes, hfit]
+    | some f => simp [Step.passes, hfit, checkArray2_false_of_mem (some f.mFeatures) 1 hrow hv hnf]
+  rcases mem_xStep e m.isFitted a.converged with h | h | h | h
   · exact entry_rejects_of_step hr _ h h1
   · exact entry_rejects_of_step hr _ h h2
   · exact entry_rejects_of_step hr _ h h3
+  · exact entry_rejects_of_step hr _ h h4
 
 /-- **y, non-finite.** Every entry point that takes `y` (for PoissonGAM also after the division by the exposure) -/
 theorem entry_rejects_nonfinite_y (e : Entry) (m : Model) (a : Args) (hr : Ready e m) (hy : DataArg.y ∈ e.args)
@@ -143,15 +148,13 @@ theorem entry_rejects_nonfinite_y (e : Entry) (m : Model) (a : Args) (hr : Ready
                 exact checkArray1_false_of_mem 1 hz hzf)
         · exact entry_rejects_of_step hr _ hl (by simp [Step.passes, optLen, hex, hlen])
 
-/-- **weights, non-finite** (full statement: for every entry point taking weights).  Proved except for
-`fit_quantile` on a fitted model whose quantile ratio is already within `tol`, where the code returns before
-any use of `weights` — see `fitQuantile_converged_weights_accepted`. -/
-theorem entry_rejects_nonfinite_weights_partial (e : Entry) (m : Model) (a : Args) (hr : Ready e m)
+/-- **weights, non-finite.** Every entry point taking sample weights (including `fit_quantile` on a model that already
+sits at the requested quantile: the weights are validated before the search starts) -/
+theorem entry_rejects_nonfinite_weights (e : Entry) (m : Model) (a : Args) (hr : Ready e m)
     (hw : DataArg.weights ∈ e.args)
-    (hex : ¬ (e = .fitQuantile ∧ m.isFitted = true ∧ a.converged = true))
     (w : List Val) (hsome : a.weights = some w) (v : Val) (hv : v ∈ w) (hnf : v.isFinite = false) :
     outcome e m a = .valueError :=
-  entry_rejects_of_step hr _ (mem_weights e _ _ hw hex).1
+  entry_rejects_of_step hr _ (mem_weights e _ _ hw).1
     (by simp [Step.passes, hsome, castVec_nonfinite hv hnf])
 
 /-- **exposure, non-finite.** Every PoissonGAM entry point taking an exposure -/
@@ -171,25 +174,18 @@ theorem sample_rejects_nonfinite_sampleAtX (m : Model) (a : Args) (hr : Ready .s
   | none => simp [Step.passes, hsome, hq, hfit]
   | some f => simp [Step.passes, hsome, hq, hfit, checkXFitted_false_of_mem hrow hv hnf]
 
-/-- **lengths of X and y** (full statement: every entry point taking both).  Proved with the exception of the two
-`loglikelihood` variants, which only need `X` and `y` to broadcast: there a length-1 array is accepted — see
-`loglikelihood_length_one_accepted`. -/
-theorem entry_rejects_length_XY_partial (e : Entry) (m : Model) (a : Args) (hr : Ready e m)
-    (hy : DataArg.y ∈ e.args) (hlen : a.X.length ≠ a.y.length)
-    (hex : (e = .loglikelihood ∨ e = .poissonLoglikelihood) → a.X.length ≠ 1 ∧ a.y.length ≠ 1) :
-    outcome e m a = .valueError := by
-  rcases mem_lenXY e m.isFitted a.converged hy with h | ⟨he, h⟩
-  · exact entry_rejects_of_step hr _ h (by simp [Step.passes, hlen])
-  · obtain ⟨h1, h2⟩ := hex he
-    exact entry_rejects_of_step hr _ h (by simp [Step.passes, hlen, h1, h2])
+/-- **lengths of X and y.** Every entry point taking both (the `loglikelihood` variants compare `len(predict_mu(X))`
+with `len(y)`) -/
+theorem entry_rejects_length_XY (e : Entry) (m : Model) (a : Args) (hr : Ready e m)
+    (hy : DataArg.y ∈ e.args) (hlen : a.X.length ≠ a.y.length) : outcome e m a = .valueError :=
+  entry_rejects_of_step hr _ (mem_lenXY e m.isFitted a.converged hy) (by simp [Step.passes, hlen])
 
-/-- **length of weights** (same exclusion as for non-finite weights) -/
-theorem entry_rejects_length_weights_partial (e : Entry) (m : Model) (a : Args) (hr : Ready e m)
+/-- **length of weights.** Every entry point taking sample weights -/
+theorem entry_rejects_length_weights (e : Entry) (m : Model) (a : Args) (hr : Ready e m)
     (hw : DataArg.weights ∈ e.args)
-    (hex : ¬ (e = .fitQuantile ∧ m.isFitted = true ∧ a.converged = true))
     (w : List Val) (hsome : a.weights = some w) (hlen : a.y.length ≠ w.length) :
     outcome e m a = .valueError :=
-  entry_rejects_of_step hr _ (mem_weights e _ _ hw hex).2
+  entry_rejects_of_step hr _ (mem_weights e _ _ hw).2
     (by simp [Step.passes, optLen, hsome, hlen])
 
 /-- **length of exposure**: against `y` (fit, loglikelihood, gridsearch) resp. against `X` (`PoissonGAM.predict`) -/
@@ -203,34 +199,65 @@ theorem entry_rejects_length_exposure (e : Entry) (m : Model) (a : Args) (hr : R
   · rw [if_pos hp] at hlen
     exact entry_rejects_of_step hr _ h (by simp [Step.passes, optLen, hsome, hlen])
 
-/-- **wrong number of features**: every entry point that needs a fit, and `fit_quantile` on a fitted model -/
+/-- **wrong number of features**: on a fitted model (whose term features are columns of its training data) every entry
+point that needs a fit, `fit_quantile` and `gridsearch` reject an `X` whose width differs from `m_features` -/
 theorem entry_rejects_wrong_width (e : Entry) (m : Model) (a : Args) (hr : Ready e m) (f : Fit)
-    (hfit : m.fit = some f) (he : e.needsFit = true ∨ e = .fitQuantile)
-    (hne : a.X ≠ []) (hw : width a.X ≠ f.nFeats) : outcome e m a = .valueError := by
+    (hfit : m.fit = some f) (hinv : ∀ j ∈ f.features, j < f.mFeatures)
+    (he : e.needsFit = true ∨ e = .fitQuantile ∨ e = .gridsearch ∨ e = .poissonGridsearch)
+    (hne : a.X ≠ []) (hw : width a.X ≠ f.mFeatures) : outcome e m a = .valueError := by
   have hb : m.isFitted = true := by simp [Model.isFitted, hfit]
-  have hmem := mem_xFitted e m.isFitted a.converged (by
-    rcases he with h | h
-    · exact Or.inl h
-    · exact Or.inr ⟨h, hb⟩)
-  rcases hmem with h | ⟨_, h⟩
-  · exact entry_rejects_of_step hr _ h (by simp [Step.passes, hfit, checkXFitted_false_of_width hne hw])
-  · exact entry_rejects_of_step hr _ h (by simp [Step.passes, hfit, checkXFittedTerm_false_of_width hne hw])
+  have hw' : width a.X ≠ f.nFeats := by rw [Fit.nFeats_eq hinv]; exact hw
+  by_cases hg : e = .gridsearch ∨ e = .poissonGridsearch
+  · have hmem := mem_xFittedWidth e a.converged hg
+    rw [← hb] at hmem
+    exact entry_rejects_of_step hr _ hmem
+      (by simp [Step.passes, hfit, checkArray2_false_of_width 1 hne hw])
+  · have hmem := mem_xFitted e m.isFitted a.converged (by
+      rcases he with h | h | h | h
+      · exact Or.inl h
+      · exact Or.inr ⟨h, hb⟩
+      · exact absurd (Or.inl h) hg
+      · exact absurd (Or.inr h) hg)
+    rcases hmem with h | ⟨_, h⟩
+    · exact entry_rejects_of_step hr _ h (by simp [Step.passes, hfit, checkXFitted_false_of_width hne hw'])
+    · exact entry_rejects_of_step hr _ h (by simp [Step.passes, hfit, checkXFittedTerm_false_of_width hne hw'])
 
-/-- **X lacks a feature the terms need** (full statement: every (re)fitting entry point).  Proved for `fit`,
-`PoissonGAM.fit`, `gridsearch` on an unfitted model and `fit_quantile` when it refits; `gridsearch` on a fitted
-model swallows the error of every candidate — see `gridsearch_fitted_narrow_accepted`. -/
-theorem entry_rejects_missing_feature_partial (e : Entry) (m : Model) (a : Args) (hr : Ready e m)
-    (he : e = .fit ∨ e = .poissonFit ∨ ((e = .gridsearch ∨ e = .poissonGridsearch) ∧ m.isFitted = false)
-      ∨ (e = .fitQuantile ∧ (m.isFitted = false ∨ a.converged = false)))
-    (fs : List Nat) (hfs : m.termFeats = some fs) (j : Nat) (hj : j ∈ fs) (hnarrow : width a.X ≤ j) :
+/-- **X lacks a feature the terms need**: every (re)fitting entry point, in every state.  Before the first fit (and
+whenever `fit` itself runs) `terms.compile` refuses; on a fitted model `gridsearch` and `fit_quantile` compare the width
+of `X` with `m_features` first (the invariant `hinv` says the term features are columns of the training data). -/
+theorem entry_rejects_missing_feature (e : Entry) (m : Model) (a : Args) (hr : Ready e m)
+    (he : e = .fit ∨ e = .poissonFit ∨ e = .gridsearch ∨ e = .poissonGridsearch ∨ e = .fitQuantile)
+    (fs : List Nat) (hfs : m.termFeats = some fs) (j : Nat) (hj : j ∈ fs) (hnarrow : width a.X ≤ j)
+    (hne : a.X ≠ [])
+    (hinv : ∀ f, m.fit = some f → (∀ k ∈ fs, k < f.mFeatures) ∧ (∀ k ∈ f.features, k < f.mFeatures)) :
     outcome e m a = .valueError := by
-  refine entry_rejects_of_step hr _ (mem_compile e _ _ he) ?_
-  simp only [Step.passes, hfs]
-  cases h : fs.all (fun j => decide (j < width a.X)) with
-  | false => rfl
-  | true =>
-      have := List.all_eq_true.mp h j hj
-      simp at this; omega
+  have hcompile : Step.passes m a .compile = false := by
+    simp only [Step.passes, hfs]
+    cases h : fs.all (fun j => decide (j < width a.X)) with
+    | false => rfl
+    | true =>
+        have := List.all_eq_true.mp h j hj
+        simp at this; omega
+  cases hfit : m.fit with
+  | none =>
+      have hb : m.isFitted = false := by simp [Model.isFitted, hfit]
+      refine entry_rejects_of_step hr _ (mem_compile e _ _ ?_) hcompile
+      rw [hb]
+      rcases he with h | h | h | h | h
+      · exact Or.inl h
+      · exact Or.inr (Or.inl h)
+      · exact Or.inr (Or.inr (Or.inl ⟨Or.inl h, rfl⟩))
+      · exact Or.inr (Or.inr (Or.inl ⟨Or.inr h, rfl⟩))
+      · exact Or.inr (Or.inr (Or.inr ⟨h, Or.inl rfl⟩))
+  | some f =>
+      obtain ⟨h1, h2⟩ := hinv f hfit
+      have hw : width a.X ≠ f.mFeatures := by have := h1 j hj; omega
+      rcases he with h | h | h | h | h
+      · exact entry_rejects_of_step hr _ (mem_compile e _ _ (Or.inl h)) hcompile
+      · exact entry_rejects_of_step hr _ (mem_compile e _ _ (Or.inr (Or.inl h))) hcompile
+      · exact entry_rejects_wrong_width e m a hr f hfit h2 (Or.inr (Or.inr (Or.inl h))) hne hw
+      · exact entry_rejects_wrong_width e m a hr f hfit h2 (Or.inr (Or.inr (Or.inr h))) hne hw
+      · exact entry_rejects_wrong_width e m a hr f hfit h2 (Or.inr (Or.inl h)) hne hw
 
 /-- **targets outside the link's domain**: every entry point taking `y` (PoissonGAM: without exposure, resp. for
 `loglikelihood` always, since there `check_y` sees the raw counts) -/
@@ -349,7 +376,7 @@ theorem initial_adjust_finite (l : Link) (lv y : Rat) (hlv : 1 ≤ lv) (hy : inD
         · rw [h3] at hd ⊢; exact lt_of_le_of_ne hd.2 h1
         · exact lt_of_le_of_ne hd.2 (fun h => h2 ⟨h3, h⟩)
 
-/-! ## the excluded regions are genuine counter-examples (suspected defects of the code as it is now) -/
+/-! ## non-vacuity, and the one excluded region -/
 
 def demoFit : Fit := ⟨1, [0], [], []⟩
 def demoModel : Model := ⟨.identity, 1, some [0], true, some demoFit⟩
@@ -370,30 +397,18 @@ example : outcome .accuracy ⟨.logit, 1, some [0], true, some demoFit⟩
 example : outcome .predict ⟨.identity, 1, some [0], true, some ⟨1, [0], [⟨0, -1 / 2, 5 / 2⟩], [[⟨0, -1 / 2, 5 / 2⟩]]⟩⟩
     { X := [[.fin 0], [.fin 3]] } = .valueError := by decide +kernel
 example : outcome .predict ⟨.identity, 1, none, false, none⟩ { X := [[.fin 0]] } = .attributeError := by decide +kernel
+/-- formerly accepted (repaired in the tree under test): a length-1 `X` in `loglikelihood`, NaN weights in a converged
+`fit_quantile`, a one-column `X` in `gridsearch` on a fitted two-feature model -/
+example : outcome .loglikelihood demoModel { X := [[.fin 0]], y := [.fin 0, .fin 1] } = .valueError := by decide +kernel
+example : outcome .fitQuantile demoModel
+    { X := [[.fin 0], [.fin 1]], y := [.fin 0, .fin 1], weights := some [.nan, .fin 1], converged := true } =
+      .valueError := by decide +kernel
+example : outcome .gridsearch ⟨.identity, 1, some [0, 1], true, some ⟨2, [0, 1], [], []⟩⟩
+    { X := [[.fin 0], [.fin 1]], y := [.fin 0, .fin 1] } = .valueError := by decide +kernel
+
 /-- `initial_adjust_finite` at the boundary `y = levels = 3` of a binomial with three trials -/
 example : inDomain .logit 3 3 = true ∧ initialAdjust 3 3 = 299 / 100 ∧ linkFiniteAt .logit 3 (initialAdjust 3 3) = true := by
   decide +kernel
-
-/-- G1: `loglikelihood(X, y)` with 1 row of `X` and 2 targets is not rejected -/
-theorem loglikelihood_length_one_accepted :
-    ∃ (m : Model) (a : Args), Ready .loglikelihood m ∧ a.X.length ≠ a.y.length ∧
-      outcome .loglikelihood m a = .ok ∧ outcome .poissonLoglikelihood m a = .ok :=
-  ⟨demoModel, { X := [[.fin 0]], y := [.fin 0, .fin 1] }, fun _ => by decide, by decide, by decide, by decide⟩
-
-/-- G2: `fit_quantile` on a fitted model that already sits at the requested quantile returns although the weights
-contain NaN -/
-theorem fitQuantile_converged_weights_accepted :
-    ∃ (m : Model) (a : Args), Ready .fitQuantile m ∧ a.weights = some [.nan, .fin 1] ∧
-      outcome .fitQuantile m a = .ok :=
-  ⟨demoModel, { X := [[.fin 0], [.fin 1]], y := [.fin 0, .fin 1], weights := some [.nan, .fin 1], converged := true },
-   fun h => by simp [Entry.needsFit] at h, rfl, by decide⟩
-
-/-- G4: `gridsearch` on a fitted model whose terms need feature 1 goes through with a one-column `X` -/
-theorem gridsearch_fitted_narrow_accepted :
-    ∃ (m : Model) (a : Args), m.isFitted = true ∧ m.termFeats = some [0, 1] ∧ width a.X = 1 ∧
-      outcome .gridsearch m a = .ok :=
-  ⟨⟨.identity, 1, some [0, 1], true, some ⟨2, [0, 1], [], []⟩⟩,
-   { X := [[.fin 0], [.fin 1]], y := [.fin 0, .fin 1] }, by decide, rfl, by decide, by decide⟩
 
 /-- since repair c103169: a model `s(0) + f(1)`; the partial dependence of term 0 is computed although column 1 holds the
 unseen category 3 (it does not enter the result), while `predict` on the same `X` is rejected -/
